@@ -357,18 +357,21 @@ theorem agree_step {cl cl' : Slots} {L : List Sess} {r : ServerResult} (hs : Slo
       rintro ⟨e1, _⟩
       exact hne (hs.ids i j c cj hc hj' (by rw [hid, h1, e1]))
 
-/-- States reachable from `NetcodeServer::new` by the public operations (any inputs, any interleaving), with the log of
-    the `ClientConnected` / `ClientDisconnected` results returned so far. -/
+/-- States reachable from an empty server (in particular from `NetcodeServer::new`, `Reach.new`) by the public
+    operations (any inputs, any interleaving), with the log of the `ClientConnected` / `ClientDisconnected` results
+    returned so far. -/
 inductive Reach (a : AEAD) : NetcodeServer → List Event → Prop
-  | init {t m pid : Nat} {pa : List Addr} {sec : Bool} {k ck : Bytes} {s : NetcodeServer} :
-      NetcodeServer.new t m pid pa sec k ck = .ok s → Reach a s []
+  | init {s : NetcodeServer} : EmptyServer s → Reach a s []
   | step {s s' : NetcodeServer} {log : List Event} {op : Op} {r : ServerResult} :
       Reach a s log → step a s op = some (r, s') → Reach a s' (log ++ eventOf r)
+
+theorem Reach.new {a : AEAD} {t m pid : Nat} {pa : List Addr} {sec : Bool} {k ck : Bytes} {s : NetcodeServer}
+    (h : NetcodeServer.new t m pid pa sec k ck = .ok s) : Reach a s [] := .init (new_inv h).2.2.2.2.2.1
 
 /-- **every reachable state satisfies the invariant** -/
 theorem Reach.inv {a : AEAD} {s : NetcodeServer} {log : List Event} (h : Reach a s log) : ServerInv s := by
   induction h with
-  | init h => exact (new_inv h).1
+  | init h => exact h.inv
   | step _ hs ih => exact step_inv ih hs
 
 /-- **the log of a reachable state replays, and what it leaves live is exactly the occupied slots** -/
@@ -378,7 +381,7 @@ theorem Reach.log {a : AEAD} {s : NetcodeServer} {log : List Event} (h : Reach a
   | init h =>
     refine ⟨[], rfl, ?_⟩
     intro id ad ud
-    rw [(new_inv h).2.1]
+    rw [h.clients]
     simp only [List.not_mem_nil, false_iff, not_exists, not_and]
     intro i c hc
     exact absurd hc (by unfold At; rw [List.getElem?_replicate]; split <;> simp)
@@ -807,8 +810,7 @@ theorem Reach.count_le_slots {a : AEAD} {s : NetcodeServer} {log : List Event} (
 /-- States reachable without ever lowering the client limit: `set_max_clients m` is only used with
     `m ≥ max_clients` (values above `NETCODE_MAX_CLIENTS` are clamped by the implementation). -/
 inductive ReachNL (a : AEAD) : NetcodeServer → Prop
-  | init {t m pid : Nat} {pa : List Addr} {sec : Bool} {k ck : Bytes} {s : NetcodeServer} :
-      NetcodeServer.new t m pid pa sec k ck = .ok s → ReachNL a s
+  | init {s : NetcodeServer} : EmptyServer s → ReachNL a s
   | step {s s' : NetcodeServer} {op : Op} {r : ServerResult} :
       ReachNL a s → step a s op = some (r, s') → (∀ m, op = .setMaxClients m → s.maxClients ≤ m) → ReachNL a s'
 
@@ -823,9 +825,7 @@ theorem ReachNL.count_le_max {a : AEAD} {s : NetcodeServer} (h : ReachNL a s) :
     s.clients.length = s.maxClients ∧ countConnected s.clients ≤ s.maxClients := by
   have key : s.clients.length = s.maxClients := by
     induction h with
-    | init h =>
-      obtain ⟨_, h1, h2, _⟩ := new_inv h
-      rw [h1, h2, List.length_replicate]
+    | init h => rw [h.clients, List.length_replicate]
     | @step s s' op r hr hs hnl ih =>
       obtain ⟨log, hl⟩ := hr.reach
       have hi := hl.inv
